@@ -103,6 +103,8 @@ def rule_format_enum(repo: Repo, chk: Check, R: str):
 
     seen = {"verbose": 0, "compact": 0}
     bad = []
+    bare_by_name = []
+    from ..cfg import decompose as decompose_
     for conds, v in return_paths(fe):
         if v is None:
             continue
@@ -115,6 +117,23 @@ def rule_format_enum(repo: Repo, chk: Check, R: str):
             seen["verbose"] += 1
             if not is_name(v):
                 bad.append(("verbose", norm(v)))
+            elif norm(v) == f"{ep}.name":
+                # the bare name is IC10's spelling of LogicType / LogicSlotType / LogicBatchMethod members only: whether the prefix may be
+                # dropped has to be decided by the member's TYPE
+                by_type = by_name = False
+                for t, p_ in conds:
+                    for at_, ap_ in decompose_(t, p_):
+                        tt = norm(at_)
+                        if ap_ and isinstance(at_, ast.Call) and norm(at_.func) == "isinstance" and len(at_.args) == 2 and norm(at_.args[0]) == ep and "Logic" in norm(at_.args[1]):
+                            by_type = True
+                        elif ap_ and tt.startswith(f"type({ep})") and "Logic" in tt:
+                            by_type = True
+                        elif ap_ and isinstance(at_, ast.Compare) and f"{ep}.name" in norm(at_.left) and isinstance(at_.ops[0], ast.In):
+                            by_name = True
+                if by_name and not by_type:
+                    bare_by_name.append(norm(v))
+                elif not by_type:
+                    raise AnalysisError("format_enum: the condition under which the bare member name is returned was not understood")
         else:
             seen["compact"] += 1
             if norm(v) not in (f"{ep}.value", f"int({ep})", f"int({ep}.value)"):
@@ -123,6 +142,9 @@ def rule_format_enum(repo: Repo, chk: Check, R: str):
         raise AnalysisError(f"format_enum: returns per mode {seen}")
     chk.judge(R, "utils:format_enum:verbose spelling is the member's name", not [b_ for b_ in bad if b_[0] == "verbose"],
               f"a verbose return is {[b_[1] for b_ in bad if b_[0] == 'verbose']}, not <member>.name (optionally prefixed by its type name) of the argument", None, wfe)
+    chk.judge(R, "utils:format_enum:the enum prefix is dropped by type, not by name", not bare_by_name,
+              "the bare member name is returned whenever a logic type / slot type / batch method of the same NAME exists: DaylightSensorMode.Vertical (2) is written 'Vertical', "
+              "which IC10 reads as LogicType.Vertical (21), while the compact output carries 2", None, wfe)
     chk.judge(R, "utils:format_enum:compact spelling is the member's value", not [b_ for b_ in bad if b_[0] == "compact"],
               f"a non-verbose return is {[b_[1] for b_ in bad if b_[0] == 'compact']}, not <member>.value of the same argument", None, wfe)
 
